@@ -631,3 +631,188 @@ def group_body(items):
     if cur is not None:
         body += "End S%d.\n" % k
     return body
+
+
+KIND_COQ = {"tri": "Tri", "fbank": "Fbank", "gabor": "Gabor", "gammatone": "Gammatone"}
+
+
+def flags_correspondence(ctx, F, np):
+    """is_real / is_zero_phase / dtype of the impulse response: implementation vs model (vm_compute)."""
+    obs = []
+    for kind in ("tri", "fbank", "gabor", "gammatone"):
+        for analytic in (False, True):
+            cfg = dict(kind=kind, rate=8000, num_filts=3, low_hz=100.0, high_hz=3000.0, scale=dict(name="mel"),
+                       analytic=analytic, erb=False, scale_l2_norm=False, order=4, max_centered=analytic)
+            bank = build(F, cfg)
+            x = bank.get_impulse_response(1, 64)
+            obs.append((kind, analytic, bool(bank.is_real), bool(bank.is_zero_phase), bool(np.iscomplexobj(x)), str(x.dtype)))
+    body = "Eval vm_compute in (map (fun ka => (is_real (fst ka) (snd ka), is_zero_phase (fst ka), match ir_dtype (fst ka) (snd ka) with Model.Float64 => false | Model.Complex128 => true end)) [%s]).\n" % "; ".join(
+        "(%s, %s)" % (KIND_COQ[k], b(a)) for k, a, _, _, _, _ in obs)
+    ans, log = C.coq_eval(ctx, "flags", body, "From Coq Require Import List Bool.\nImport ListNotations.\nFrom Verif Require Import C07.Model.\n")
+    if ans is None or len(ans) != 1:
+        ctx.fail("model evaluation of the flag logic failed", dict(correspondence="C07/Model.v is_real/is_zero_phase/ir_dtype", log_tail=(log or "")[-800:]),
+                 kind="tie", no_input=True)
+        return
+    model = C.parse_coq(ans[0])
+    for (k, a, r, z, cplx, dt), m in zip(obs, model):
+        case = dict(kind=k, analytic=a, is_real=r, is_zero_phase=z, ir_complex=cplx, ir_dtype=dt)
+        ctx.case(dict(observe="flags", **case))
+        ctx.count("flags:" + k)
+        if tuple(m) != (r, z, cplx) or dt not in ("float64", "complex128"):
+            ctx.fail("implementation flags/dtype %r differ from the model %r" % (case, m), dict(case=case, model=list(m),
+                     correspondence="is_real / is_zero_phase / dtype of get_impulse_response vs C07/Model.v"), kind="correspondence")
+        else:
+            ctx.cov["traces_validated_against_impl"] += 1
+
+
+def cert_correspondence(ctx, F, np, eps, n_filters):
+    G = Goals(eps)
+    per_kind = {"tri": 0.22, "fbank": 0.08, "gabor": 0.35, "gammatone": 0.35}
+    groups = []  # (start, end) indices of each filter's goals
+    tries = 0
+    while len(groups) < n_filters and tries < 20 * n_filters:
+        tries += 1
+        u = ctx.rng.random()
+        acc = 0.0
+        for kind, p in per_kind.items():
+            acc += p
+            if u <= acc:
+                break
+        cfg = gen_config(ctx.rng, kind=kind, thorough=ctx.thorough)
+        if cfg.get("scale", {}).get("name") == "bark":
+            # the Bark maps are piecewise: each certified goal would branch 2^k times; the search covers them
+            ctx.count("cert:skipped-bark")
+            continue
+        if cfg["num_filts"] > 24 and not ctx.thorough:
+            cfg["num_filts"] = ctx.rng.choice([1, 2, 5, 11, 24])
+        bank = try_build(F, cfg)
+        if bank is None:
+            ctx.count("cert:not-constructible:" + kind)
+            continue
+        fi = ctx.rng.choice([0, bank.num_filts - 1, ctx.rng.randrange(bank.num_filts)])
+        if base_width(bank, fi) > 2500:
+            ctx.count("cert:too-wide")
+            continue
+        s0 = len(G.items)
+        globals()[kind + "_goals"](G, np, cfg, bank, fi, ctx.rng, F=F)
+        if len(G.items) > s0:
+            groups.append((s0, len(G.items)))
+            ctx.count("cert:filter:" + kind)
+    for _, _, case in G.items:
+        ctx.case(case)
+        ctx.count("cert:goal:" + str(case.get("observe")))
+    ok, out = C.coq_make(["lib/C07_Cert.v", "gen/C07Filters.v", "C07/Forms.v"])
+    if not ok:
+        ctx.fail("model / certification library no longer compiles", dict(correspondence="coq/lib/C07_Cert.v", log_tail=out[-1500:]), kind="tie", no_input=True)
+        return []
+    # shards of whole filters, balanced by number of goals
+    nshard = max(1, min(12, len(groups)))
+    shards = [[] for _ in range(nshard)]
+    for gi, g in sorted(enumerate(groups), key=lambda t: -(t[1][1] - t[1][0])):
+        min(shards, key=lambda sh: sum(groups[k][1] - groups[k][0] for k in sh)).append(gi)
+    files = []
+    for si, sh in enumerate(shards):
+        items = [it for gi in sorted(sh) for it in G.items[groups[gi][0]:groups[gi][1]]]
+        files.append(("cert_%d" % si, group_body(items)))
+    res = C.coq_eval_many(ctx, files, REQ, timeout=1500)
+    mismatches = []
+    for (name, _), (ans, log), sh in zip(files, res, shards):
+        if ans is not None:
+            ctx.cov["traces_validated_against_impl"] += sum(groups[gi][1] - groups[gi][0] for gi in sh)
+            continue
+        # locate the failing filter, then the failing goal
+        for gi in sorted(sh):
+            items = G.items[groups[gi][0]:groups[gi][1]]
+            a2, l2 = C.coq_eval(ctx, "cert_one_filter", group_body(items), REQ, timeout=900)
+            if a2 is not None:
+                ctx.cov["traces_validated_against_impl"] += len(items)
+                continue
+            found_goal = False
+            for it in items:
+                a3, l3 = C.coq_eval(ctx, "cert_one_goal", group_body([it]), REQ, timeout=600)
+                if a3 is None:
+                    found_goal = True
+                    mismatches.append((it[2], (l3 or "")[-600:]))
+                    if len(mismatches) >= 4:
+                        break
+            if not found_goal:
+                mismatches.append((dict(items[0][2], note="enclosure lemma of this filter failed"), (l2 or "")[-600:]))
+            if len(mismatches) >= 4:
+                break
+        if len(mismatches) >= 4:
+            break
+    for case, log in mismatches:
+        ctx.fail("implementation value is not within tolerance of the model: %r" % (case,),
+                 dict(case=case, correspondence="Interval-certified comparison against coq/C07/Model.v", log_tail=log), kind="correspondence")
+    return mismatches
+
+
+def seeds_for_search(mismatches):
+    """configurations of disagreeing cases are searched first"""
+    out = []
+    for case, _ in mismatches:
+        cfg = case.get("config")
+        if cfg and cfg not in out:
+            out.append(cfg)
+    return out
+
+
+TARGETED = [
+    # the configurations of the fixed defect (max_centered support), orders 3..8
+    dict(kind="gammatone", rate=8000, num_filts=11, low_hz=0.0, high_hz=None, scale=dict(name="mel"), erb=e, order=o,
+         max_centered=True, scale_l2_norm=False)
+    for o in (3, 4, 6, 8) for e in (False, True)
+] + [
+    dict(kind="gabor", rate=8000, num_filts=11, low_hz=0.0, high_hz=None, scale=dict(name="mel"), erb=e, scale_l2_norm=l2)
+    for e in (False, True) for l2 in (False, True)
+] + [
+    dict(kind=k, rate=8000, num_filts=11, low_hz=lo, high_hz=None, scale=dict(name="mel"), analytic=a)
+    for k, lo in (("tri", 5.0), ("fbank", 0.0)) for a in (False, True)
+]
+
+
+def run(ctx):
+    C.ensure_impl_path()
+    import importlib
+
+    import numpy as np
+
+    F = importlib.import_module("pydrobert.speech.filters")
+    config = importlib.import_module("pydrobert.speech.config")
+    eps = float(config.EFFECTIVE_SUPPORT_THRESHOLD)
+    ok_gen = regenerate(ctx)
+    pr = C.proof_step(ctx) if ok_gen else None
+    ctx.cov["trusted_base"] += [
+        "translator /verif/gen/c07_filters.py (Python ast -> R / Z terms; complex values as (re, im) pairs; pinned statement texts)",
+        "Interval 4 (interval tactic), Coquelicot (complex numbers), Flocq (Zfloor/Zceil/Ztrunc)",
+        "generated /verif/coq/gen/Scales.v (property C19) for the bank edges in the certified comparison",
+    ]
+    mismatches = []
+    if ok_gen:
+        flags_correspondence(ctx, F, np)
+        mismatches = cert_correspondence(ctx, F, np, eps, ctx.scale(30, 240))
+        ctx.log("correspondence: %d certified comparisons, %d mismatches" % (ctx.cov["traces_validated_against_impl"], len(mismatches)))
+    seeds = seeds_for_search(mismatches) + [dict(c) for c in TARGETED]
+    found, worst = run_search(ctx, F, np, eps, ctx.scale(260, 6000), ctx.scale(12000, 40000), ctx.scale(50, 1500), seeds=seeds)
+    ctx.cov["worst_margins_in_units_of_threshold"] = {k: v[0] for k, v in sorted(worst.items())}
+    ctx.log("search: %d oracle evaluations, %d violations; worst margins (x threshold): %s" % (
+        sum(v for k, v in ctx.dist.items() if k.startswith("search:eval:")), found,
+        ", ".join("%s=%s" % (k, v[0]) for k, v in sorted(worst.items()))))
+    ctx.cov["rule"] = (
+        "evaluations = certified comparisons (one per observed value: centers_hz, supports_hz, supports, samples of "
+        "get_impulse_response / get_frequency_response, flags) + oracle evaluations (one per bank x filter x width); "
+        "an oracle evaluation is non-trivial when at least one sample or bin lies outside the advertised support; "
+        "distinct = distinct (configuration, filter, width / observed value)"
+    )
+    if (pr is not None and not pr["ok"]) or not ok_gen:
+        if not found and not mismatches:
+            ctx.log("search found no failing input on the implementation")
+    ctx.assumptions += [
+        "float64 rounding is not modelled: certified comparisons use 1e-9 (absolute for samples, relative for Hz values), "
+        "integer supports are compared up to 1e-7 before ceil/floor",
+        "np.fft.ifft / irfft compute the inverse DFT (used by the oracle and by Fbank.get_impulse_response)",
+        "the IDFT-pair clause and the Fbank temporal tail are checked numerically only (no theorem)",
+        "closed forms 'what the accumulation loop leaves in res[j]' of Model.v are validated by the certified comparison, not proved from a loop model",
+        "Bark-scaled banks are exercised by the oracle only (not by the certified comparison)",
+    ]
+    return C.finish(ctx, "proof")
